@@ -350,8 +350,13 @@ def main():
     searched = False
     if (broken or mm or tie_broken) and not vv and ok and not a.replay and not (tie_broken and not rec):
         searched = True
-        for k, sseed in enumerate([a.seed + 1000, a.seed + 2000]):
-            rc, dout = run.run_driver(binp, "thorough" if k else a.tier, sseed, scale=run.cfg.get("search_scale", 4))
+        # one more pass over fresh seeds at a larger volume (thorough tier: a second, thorough-volume pass)
+        passes = [(a.tier, a.seed + 1000)] + ([("thorough", a.seed + 2000)] if a.tier == "thorough" else [])
+        t_search = time.time()
+        for stier, sseed in passes:
+            if time.time() - t_search > run.cfg.get("search_budget_s", 600):
+                break
+            rc, dout = run.run_driver(binp, stier, sseed, scale=run.cfg.get("search_scale", 4))
             if rc != 0:
                 continue
             n2, mm2, vv2, _ = run.judge()
